@@ -2103,6 +2103,36 @@ func (c *Ctx) ruleRegexPreludeComment(rule string) {
 	}
 }
 
+// ruleCommentBeforeOpen: comment lines are insignificant wherever they stand between lexemes, and a directive may have
+// its body in an explicit context. Where the scanner accepts the '(' of that context it has to accept a comment line
+// in front of it - as a comment of the API description, not as the beginning of the body (F49: TYPE and Body in the
+// jsight notation handed the '#' to the schema reader, which then met the parenthesis).
+func (c *Ctx) ruleCommentBeforeOpen(rule string) {
+	r := c.R
+	r.Rule(rule, "in every explored configuration of the scanner automaton in which '(' is reported as ContextOpen, the byte '#' is neither an error nor the beginning of a Schema/Text/Enum lexeme (nor a transition into a state of the schema reader): a comment line between a directive and the parenthesis of its explicit context is a comment, whichever directive it is", 1)
+	a := c.Analysis(stackK, false)
+	if a == nil {
+		r.Undecided(rule, "E1", "no exploration", "")
+		return
+	}
+	fails, n := a.CommentBeforeOpenFailures()
+	if n < 10 {
+		r.Undecided(rule, "sites", fmt.Sprintf("only %d configurations accept the parenthesis of an explicit context", n), "")
+		return
+	}
+	seen := map[string]bool{}
+	for _, f := range fails {
+		if seen[f.State] {
+			continue
+		}
+		seen[f.State] = true
+		r.Bad(rule, "state "+f.State, fmt.Sprintf("the scanner accepts '(' as the beginning of an explicit context here (stack %s), but %s: a comment line in front of the parenthesis changes the verdict (reached by %s)", f.Stack, f.What, f.Trace), "")
+	}
+	if len(fails) == 0 {
+		r.Ok(rule, "all configurations", fmt.Sprintf("%d configurations accept the parenthesis of an explicit context: '#' starts a comment in each", n), "")
+	}
+}
+
 // ruleFinalNewline: a line break at the very end of a file changes nothing (C08: trailing blanks and blank lines are
 // insignificant; files without a final line break are common). Decided on E1: the end of the input right away and
 // after one more LF must have the same verdict in every explored configuration in which a LF is accepted.
